@@ -34,10 +34,22 @@ ctr_ghost(void)
 #else
 #define CTR_BUFMODE_DECL IN(unsigned, bufmode)
 #endif
+/*
+ * Object sizes: exact (malloc(len), every overrun of the call's buffers is an object-bounds violation) in the leaf
+ * groups where the real code touches the bytes; with -DC02_FIXED_OBJ the objects have the fixed size CTR_MAXLEN and
+ * the buffer is their prefix -- used by the composite groups, where every access to the buffers happens in a
+ * replaced callee whose `requires` bounds it by the call length g_ctr_len (CTR_CURSOR_IN_CALL), so nothing is lost,
+ * and symbolic-size objects cost 8x more solver time (measured).
+ */
+#ifdef C02_FIXED_OBJ
+#define CTR_OBJSZ(len, k) ((size_t)(k) * CTR_MAXLEN)
+#else
+#define CTR_OBJSZ(len, k) ((size_t)(k) * (len))
+#endif
 #define CTR_MK_BUFS(in, out, len) \
 	CTR_BUFMODE_DECL; \
-	uint8_t * in##_obj = malloc(bufmode >= 2 ? 2 * (len) : (len)); \
-	uint8_t * out##_obj = malloc(len); \
+	uint8_t * in##_obj = malloc(bufmode >= 2 ? CTR_OBJSZ(len, 2) : CTR_OBJSZ(len, 1)); \
+	uint8_t * out##_obj = malloc(CTR_OBJSZ(len, 1)); \
 	__CPROVER_assume(in##_obj != NULL && out##_obj != NULL && bufmode <= 3); \
 	const uint8_t * in = (bufmode == 3) ? in##_obj + (len) : in##_obj; \
 	uint8_t * out = (bufmode == 0) ? out##_obj : (bufmode == 1) ? in##_obj : \
